@@ -1306,8 +1306,19 @@ class AdbDevice(object):
         msg = AdbMessage(constants.WRTE, adb_info.local_id, adb_info.remote_id, filesync_info.send_buffer[:filesync_info.send_idx])
         self._io_manager.send(msg, adb_info)
 
-        # Expect an 'OKAY' in response
-        self._read_until([constants.OKAY], adb_info)
+        # Expect an 'OKAY' in response; keep any data that the device writes in the meantime (e.g., a 'FAIL' message)
+        start = time.time()
+
+        while True:
+            cmd, data = self._read_until([constants.OKAY, constants.WRTE], adb_info)
+            if cmd == constants.OKAY:
+                break
+
+            filesync_info.recv_buffer += data
+
+            if time.time() - start > adb_info.read_timeout_s:
+                # The device keeps writing, but it never acknowledges our write
+                raise exceptions.AdbTimeoutError("Never got an OKAY for the data that was sent (transport_timeout_s = {}, read_timeout_s = {})".format(adb_info.transport_timeout_s, adb_info.read_timeout_s))
 
         # Reset the send index
         filesync_info.send_idx = 0
